@@ -571,15 +571,20 @@ theorem rootLoop_inv (parseTree : Array ParseNode) :
       exact ih _ _ ⟨pushEndInstructions_ext _ _ _ h2.1, h2.2⟩
 
 /-- (c) `build` only appends: whatever it returns, the result state extends the initial state -/
+theorem buildCore_ext (fuel parseRoot : Nat) (parseTree : Array ParseNode) (data : BState F) :
+    Sat (fun r => Ext data r.1) (buildCore parseFloat fuel parseRoot parseTree data) := by
+  unfold buildCore
+  · dsimp only
+    refine sat_bind (setNodeIdx_sat (j0 := data.jumps.size) (nodesOk_replicate _ _) _ (bnOk_new _ _ _) _) (fun nodes hnodes => ?_)
+    refine sat_bind (rootLoop_inv parseFloat parseTree fuel fuel _ ⟨Ext.refl data, hnodes⟩) (fun ctx hctx => ?_)
+    exact hctx.1
+
 theorem build_ext (fuel parseRoot : Nat) (parseTree : Array ParseNode) (data : BState F) :
     Sat (fun r => Ext data r.1) (build parseFloat fuel parseRoot parseTree data) := by
   unfold build
   split
   · exact ext_pushInstr (Ext.refl data) _ _ _
-  · dsimp only
-    refine sat_bind (setNodeIdx_sat (j0 := data.jumps.size) (nodesOk_replicate _ _) _ (bnOk_new _ _ _) _) (fun nodes hnodes => ?_)
-    refine sat_bind (rootLoop_inv parseFloat parseTree fuel fuel _ ⟨Ext.refl data, hnodes⟩) (fun ctx hctx => ?_)
-    exact hctx.1
+  · exact sat_bind (Q := fun _ => True) sat_true (fun _ _ => buildCore_ext parseFloat _ _ _ _)
 
 end handlers
 
@@ -595,5 +600,566 @@ theorem build_appends_only (parseFloat : List Char → Option F) (fuel parseRoot
   rw [h] at this
   obtain ⟨⟨l1, h1⟩, ⟨l2, h2⟩, ⟨l3, h3⟩, h4, h5⟩ := this
   exact ⟨⟨l1, h1.symm⟩, ⟨l2, h2.symm⟩, ⟨l3, h3.symm⟩, h4, h5⟩
+
+
+/-! ## (a) no panic on parse trees whose links are in range -/
+
+/-- `SatNP P x` : `x` is not a panic, and if it is `ok a` then `P a` -/
+def SatNP {α : Type} (P : α → Prop) : Outcome α → Prop
+  | .ok a => P a
+  | .panic _ => False
+  | _ => True
+
+section
+variable {α β : Type} {P : α → Prop}
+@[simp] theorem satNP_ok {a : α} : SatNP P (.ok a) ↔ P a := Iff.rfl
+@[simp] theorem satNP_err {e : ErrClass} : SatNP P (.err e : Outcome α) := trivial
+@[simp] theorem satNP_fuelOut : SatNP P (.fuelOut : Outcome α) := trivial
+@[simp] theorem satNP_buildErr : SatNP P (buildErr : Outcome α) := trivial
+@[simp] theorem satNP_dataErr : SatNP P (dataErr : Outcome α) := trivial
+
+theorem satNP_bind {x : Outcome α} {f : α → Outcome β} {Q : α → Prop} {R : β → Prop}
+    (hx : SatNP Q x) (hf : ∀ a, Q a → SatNP R (f a)) : SatNP R (Outcome.bind x f) := by
+  cases x <;> simp_all [Outcome.bind, SatNP]
+
+theorem satNP_mono {x : Outcome α} {Q : α → Prop} (hx : SatNP Q x) (h : ∀ a, Q a → P a) : SatNP P x := by
+  cases x <;> simp_all [SatNP]
+
+theorem satNP_noPanic {x : Outcome α} (h : SatNP P x) (s : String) : x ≠ .panic s := by
+  intro hx; subst hx; exact h
+
+theorem satNP_of_noPanic {x : Outcome α} (h : ∀ s, x ≠ .panic s) : SatNP (fun _ => True) x := by
+  cases x <;> simp_all [SatNP]
+end
+
+/-! ### the literal parsers: numbers and char lists never panic -/
+
+section literals
+variable (parseFloat : List Char → Option F)
+
+theorem parseNumberInternal_np (input : List Char) (radix : Nat) :
+    SatNP (fun _ => True) (parseNumberInternal parseFloat input radix) := by
+  unfold parseNumberInternal
+  dsimp only
+  refine satNP_bind (Q := fun _ => True) ?_ (fun r _ => ?_)
+  · repeat' (first | exact satNP_dataErr | exact trivial | split)
+  · obtain ⟨radix, input⟩ := r
+    dsimp only
+    repeat' (first | exact satNP_dataErr | exact trivial | split)
+
+theorem charListStep_np (q : Nat) (st : CharListState) (c : Char) : SatNP (fun _ => True) (charListStep parseFloat q st c) := by
+  unfold charListStep
+  repeat' (first
+    | exact satNP_dataErr
+    | exact trivial
+    | (refine satNP_bind (parseNumberInternal_np parseFloat _ _) (fun _ _ => ?_))
+    | split)
+
+theorem charListLoop_np (q : Nat) : ∀ (l : List Char) (st : CharListState), SatNP (fun _ => True) (charListLoop parseFloat q st l) := by
+  intro l
+  induction l with
+  | nil => intro st; exact trivial
+  | cons c rest ih =>
+    intro st
+    simp only [charListLoop]
+    exact satNP_bind (charListStep_np parseFloat q st c) (fun st' _ => ih st')
+
+theorem parseCharList_np (input : List Char) : SatNP (fun _ => True) (parseCharList parseFloat input) := by
+  unfold parseCharList
+  repeat' (first
+    | exact trivial
+    | (refine satNP_bind (charListLoop_np parseFloat _ _ _) (fun _ _ => ?_))
+    | split
+    | dsimp only)
+
+end literals
+
+/-! ### invariant: the node vector keeps its length and every recorded conditional item names a node -/
+
+def BnNP (n : Nat) (bn : BuildNode) : Prop := ∀ c, c ∈ bn.conditionalItems.toList → c.nodeIndex < n
+
+def NodesNP (n : Nat) (nodes : Nodes) : Prop :=
+  nodes.size = n ∧ ∀ (i : Nat) (bn : BuildNode), nodes[i]? = some (some bn) → BnNP n bn
+
+/-- the links of one parse node are in range -/
+def PnOk (n : Nat) (pn : ParseNode) : Prop :=
+  (∀ l, pn.left = some l → l < n) ∧ (∀ r, pn.right = some r → r < n)
+
+theorem bnNP_congr {n : Nat} {b b' : BuildNode} (h : BnNP n b) (h2 : b'.conditionalItems = b.conditionalItems) : BnNP n b' := by
+  unfold BnNP at *; rw [h2]; exact h
+theorem bnNP_new (n a b : Nat) : BnNP n (BuildNode.new a b) := by simp [BnNP, BuildNode.new]
+theorem bnNP_newWithList (n a b c : Nat) (d : Definition) : BnNP n (BuildNode.newWithList a b c d) := by
+  simp [BnNP, BuildNode.newWithList, BuildNode.new]
+theorem bnNP_newWithConditional (n a b c : Nat) : BnNP n (BuildNode.newWithConditional a b c) := by
+  simp [BnNP, BuildNode.newWithConditional, BuildNode.new]
+theorem bnNP_newWithJump (n a b j : Nat) : BnNP n (BuildNode.newWithJump a b j) := by
+  simp [BnNP, BuildNode.newWithJump, BuildNode.new]
+theorem bnNP_newWithJumpAndEnd (n a b j : Nat) (e : List Instr) : BnNP n (BuildNode.newWithJumpAndEnd a b j e) := by
+  simp [BnNP, BuildNode.newWithJumpAndEnd, BuildNode.new]
+
+theorem nodesNP_putNode {n : Nat} {nodes : Nodes} (h : NodesNP n nodes) (i : Nat) {b : BuildNode} (hb : BnNP n b) :
+    NodesNP n (putNode nodes i b) := by
+  refine ⟨by simp [putNode, h.1], ?_⟩
+  intro k b' hk
+  unfold putNode at hk
+  rw [Array.getElem?_setIfInBounds] at hk
+  split at hk
+  · split at hk
+    · cases hk; exact hb
+    · cases hk
+  · exact h.2 k b' hk
+
+theorem setNodeIdx_np {n : Nat} {nodes : Nodes} (h : NodesNP n nodes) {i : Nat} (hi : i < n) {b : BuildNode} (hb : BnNP n b)
+    (site : String) : SatNP (NodesNP n) (setNodeIdx nodes i b site) := by
+  unfold setNodeIdx
+  split
+  · simp only [satNP_ok]
+    refine ⟨by simp [h.1], ?_⟩
+    intro k b' hk
+    rw [Array.getElem?_set] at hk
+    split at hk
+    · cases hk; exact hb
+    · exact h.2 k b' hk
+  · rename_i hlt; exact absurd (h.1 ▸ hi) hlt
+
+theorem getNode_np {n : Nat} {nodes : Nodes} (h : NodesNP n nodes) (i : Nat) : SatNP (BnNP n) (getNode nodes i) := by
+  unfold getNode
+  split
+  · rename_i b hb; simp only [satNP_ok]; exact h.2 i b hb
+  · exact satNP_buildErr
+
+macro "nbn_tac" : tactic => `(tactic| (
+  first
+    | assumption
+    | exact bnNP_newWithList _ _ _ _ _
+    | exact bnNP_newWithConditional _ _ _ _
+    | exact bnNP_newWithJump _ _ _ _
+    | exact bnNP_newWithJumpAndEnd _ _ _ _ _
+    | exact bnNP_new _ _ _
+    | (apply bnNP_congr (by assumption); rfl)))
+
+macro "nnodes_tac" : tactic => `(tactic| (
+  repeat (first
+    | assumption
+    | (apply nodesNP_putNode (hb := by nbn_tac)))))
+
+/-- closes `i < n` for a child index `i` read from the parse node (needs `hp : PnOk n pn` in the context) -/
+macro "idx_tac" hp:term : tactic => `(tactic| (
+  first
+    | assumption
+    | exact ($hp).1 _ (by assumption)
+    | exact ($hp).2 _ (by assumption)
+    | exact ($hp).1 _ rfl))
+
+macro "np_tac" n:term "," hp:term : tactic => `(tactic| (
+  repeat' (first
+    | (refine satNP_bind (getNode_np (n := $n) ?_ _) (fun _ _ => ?_); (· nnodes_tac))
+    | (refine satNP_bind (setNodeIdx_np (n := $n) ?_ ?_ ?_ _) (fun _ _ => ?_); (· nnodes_tac); (· idx_tac $hp); (· nbn_tac))
+    | exact satNP_buildErr
+    | (show NodesNP $n _; nnodes_tac; done)
+    | simp only [bind_ok, bind_assoc]
+    | split)))
+
+section handlersNP
+variable {n : Nat} {ctx : Ctx F}
+
+abbrev NPost (n : Nat) : Ctx F → Prop := fun c => NodesNP n c.nodes
+
+theorem handleUnaryPrefix_np (hn : NodesNP n ctx.nodes) {pn : ParseNode} (hp : PnOk n pn) (ins : Instruction) (ni : Nat) :
+    SatNP (NPost n) (handleUnaryPrefix ins ctx ni pn) := by
+  unfold handleUnaryPrefix
+  np_tac n, hp
+
+
+theorem handleUnarySuffix_np (hn : NodesNP n ctx.nodes) {pn : ParseNode} (hp : PnOk n pn) (ins : Instruction) (ni : Nat) :
+    SatNP (NPost n) (handleUnarySuffix ins ctx ni pn) := by
+  unfold handleUnarySuffix
+  np_tac n, hp
+
+theorem handleBinaryOperationWithPush_np (hn : NodesNP n ctx.nodes) {pn : ParseNode} (hp : PnOk n pn) (ins : Instruction) (lr : Bool) (ni : Nat) :
+    SatNP (NPost n) (handleBinaryOperationWithPush ins lr ctx ni pn) := by
+  unfold handleBinaryOperationWithPush
+  np_tac n, hp
+
+theorem handleList_np (hn : NodesNP n ctx.nodes) {pn : ParseNode} (hp : PnOk n pn)  (ni : Nat) :
+    SatNP (NPost n) (handleList  ctx ni pn) := by
+  unfold handleList
+  np_tac n, hp
+
+theorem handleGroup_np (hn : NodesNP n ctx.nodes) {pn : ParseNode} (hp : PnOk n pn)  (ni : Nat) :
+    SatNP (NPost n) (handleGroup  ctx ni pn) := by
+  unfold handleGroup
+  np_tac n, hp
+
+theorem handleSideEffect_np (hn : NodesNP n ctx.nodes) {pn : ParseNode} (hp : PnOk n pn)  (ni : Nat) :
+    SatNP (NPost n) (handleSideEffect  ctx ni pn) := by
+  unfold handleSideEffect
+  np_tac n, hp
+
+theorem handleReapply_np (hn : NodesNP n ctx.nodes) {pn : ParseNode} (hp : PnOk n pn)  (ni : Nat) :
+    SatNP (NPost n) (handleReapply  ctx ni pn) := by
+  unfold handleReapply
+  np_tac n, hp
+
+theorem handleSubexpression_np (hn : NodesNP n ctx.nodes) {pn : ParseNode} (hp : PnOk n pn)  (ni : Nat) :
+    SatNP (NPost n) (handleSubexpression  ctx ni pn) := by
+  unfold handleSubexpression
+  np_tac n, hp
+
+theorem handleInfixApply_np (hn : NodesNP n ctx.nodes) {pn : ParseNode} (hp : PnOk n pn)  (ni : Nat) :
+    SatNP (NPost n) (handleInfixApply  ctx ni pn) := by
+  unfold handleInfixApply
+  np_tac n, hp
+
+theorem handleLogicalBinary_np (hn : NodesNP n ctx.nodes) {pn : ParseNode} (hp : PnOk n pn) (ins : Instruction) (ni : Nat) :
+    SatNP (NPost n) (handleLogicalBinary ins ctx ni pn) := by
+  unfold handleLogicalBinary
+  np_tac n, hp
+
+theorem handleBinaryOperation_np (hn : NodesNP n ctx.nodes) {pn : ParseNode} (hp : PnOk n pn) (ins : Instruction) (ni : Nat) :
+    SatNP (NPost n) (handleBinaryOperation ins ctx ni pn) :=
+  handleBinaryOperationWithPush_np hn hp ins false ni
+
+theorem handleNestedExpression_np (hn : NodesNP n ctx.nodes) {pn : ParseNode} (hp : PnOk n pn) (crj ni : Nat) :
+    SatNP (NPost n) (handleNestedExpression ctx crj ni pn) := by
+  unfold handleNestedExpression
+  np_tac n, hp
+
+theorem handleUnaryFixApply_np (hn : NodesNP n ctx.nodes) {pn : ParseNode} {child : Option Nat}
+    (hc : ∀ r, child = some r → r < n) (ni : Nat) : SatNP (NPost n) (handleUnaryFixApply child ctx ni pn) := by
+  unfold handleUnaryFixApply
+  have hp : (∀ r, child = some r → r < n) ∧ (∀ r, child = some r → r < n) := ⟨hc, hc⟩
+  np_tac n, hp
+
+theorem handleValueLike_np (hn : NodesNP n ctx.nodes) {pn : ParseNode} (hp : PnOk n pn) {addFn : AddFn F}
+    (ha : ∀ d, SatNP (fun _ => True) (addFn d pn)) (ins : Instruction) (ni : Nat) :
+    SatNP (NPost n) (handleValueLike addFn ins ctx ni pn) := by
+  unfold handleValueLike
+  refine satNP_bind (getNode_np hn _) (fun node hnode => ?_)
+  split
+  · np_tac n, hp
+  · exact satNP_bind (ha ctx.data) (fun r _ => hn)
+
+theorem handleValuePrimitive_np (hn : NodesNP n ctx.nodes) {pn : ParseNode} (hp : PnOk n pn)
+    {addFn : BState F → ParseNode → Outcome (BState F × Nat)} (ha : ∀ d, SatNP (fun _ => True) (addFn d pn)) (ni : Nat) :
+    SatNP (NPost n) (handleValuePrimitive addFn ctx ni pn) := by
+  unfold handleValuePrimitive
+  apply handleValueLike_np hn hp
+  intro d
+  exact satNP_bind (ha d) (fun r _ => trivial)
+
+theorem handleJumpIf_np (hn : NodesNP n ctx.nodes) {pn : ParseNode} (hp : PnOk n pn) (ins : Instruction) (ni : Nat) :
+    SatNP (NPost n) (handleJumpIf ins ctx ni pn) := by
+  unfold handleJumpIf
+  refine satNP_bind (getNode_np hn _) (fun node hnode => ?_)
+  split
+  · np_tac n, hp
+  · split
+    · exact satNP_buildErr
+    · rename_i right hright
+      split
+      · split
+        · rename_i parent hparent
+          have hpb : BnNP n parent := hn.2 _ _ hparent
+          show NodesNP n _
+          refine nodesNP_putNode hn _ ?_
+          intro c hc
+          simp only [Array.toList_push, List.mem_append, List.mem_singleton] at hc
+          rcases hc with hc | hc
+          · exact hpb c hc
+          · subst hc; exact hp.2 _ hright
+        · exact hn
+      · np_tac n, hp
+
+theorem elseJumpItems_np (containing jumpToIndex : Nat) :
+    ∀ (items : List ConditionItem) (rootStack : Array Nat) (newItems : Array (Nat × BuildNode)),
+      (∀ c, c ∈ items → c.nodeIndex < n) → (∀ p, p ∈ newItems.toList → p.1 < n ∧ BnNP n p.2) →
+      ∀ p, p ∈ (elseJumpItems containing jumpToIndex items rootStack newItems).2.toList → p.1 < n ∧ BnNP n p.2 := by
+  intro items
+  induction items with
+  | nil => intro rs ni _ h2; simpa [elseJumpItems] using h2
+  | cons c rest ih =>
+    intro rs ni h1 h2
+    simp only [elseJumpItems]
+    apply ih
+    · intro c' hc'; exact h1 c' (List.mem_cons_of_mem _ hc')
+    · intro p hp
+      simp only [Array.toList_push, List.mem_append, List.mem_singleton] at hp
+      rcases hp with hp | hp
+      · exact h2 p hp
+      · subst hp
+        exact ⟨h1 c List.mem_cons_self, bnNP_newWithJumpAndEnd _ _ _ _ _⟩
+
+theorem assignNewItems_np : ∀ (items : List (Nat × BuildNode)) (nodes : Nodes), NodesNP n nodes →
+    (∀ p, p ∈ items → p.1 < n ∧ BnNP n p.2) → SatNP (NodesNP n) (assignNewItems nodes items) := by
+  intro items
+  induction items with
+  | nil => intro nodes hn _; simpa [assignNewItems] using hn
+  | cons p rest ih =>
+    intro nodes hn hp
+    obtain ⟨index, bn⟩ := p
+    simp only [assignNewItems]
+    have := hp (index, bn) List.mem_cons_self
+    refine satNP_bind (setNodeIdx_np hn this.1 this.2 _) (fun nodes' hn' => ?_)
+    exact ih nodes' hn' (fun q hq => hp q (List.mem_cons_of_mem _ hq))
+
+theorem handleElseJump_np (hn : NodesNP n ctx.nodes) {pn : ParseNode} (hp : PnOk n pn) (ni : Nat) :
+    SatNP (NPost n) (handleElseJump ctx ni pn) := by
+  unfold handleElseJump
+  refine satNP_bind (getNode_np hn _) (fun node hnode => ?_)
+  split
+  · np_tac n, hp
+  · split
+    · exact hn
+    · split
+      · dsimp only
+        generalize heq : elseJumpItems node.containingExpressionJump (getJumpTableLen ctx.data)
+          node.conditionalItems.toList ctx.rootStack #[] = r
+        obtain ⟨rootStack, newItems⟩ := r
+        dsimp only
+        refine satNP_bind (assignNewItems_np _ _ hn ?_) (fun nodes hnodes => hnodes)
+        have := elseJumpItems_np (n := n) node.containingExpressionJump (getJumpTableLen ctx.data)
+          node.conditionalItems.toList ctx.rootStack #[] hnode (by simp)
+        rw [heq] at this
+        exact this
+      · exact hn
+
+
+/-- what (a) needs of one parse node: links in range, and literal texts on which the two literal parsers
+    that can panic (`&text[1..]` of a symbol, the `&input[q..len-q]` slice of a multi-quote byte list) do not -/
+structure NodeSafe (parseFloat : List Char → Option F) (n : Nat) (pn : ParseNode) : Prop where
+  links : PnOk n pn
+  symbol : pn.definition = .symbol → dropFirstByte pn.lexToken.text ≠ none
+  byteList : pn.definition = .byteList → ∀ s, parseByteList parseFloat pn.lexToken.text ≠ .panic s
+
+variable (parseFloat : List Char → Option F)
+
+theorem parseAddNumber_np (pn : ParseNode) (d : BState F) : SatNP (fun _ => True) (parseAddNumber parseFloat d pn) := by
+  unfold parseAddNumber parseSimpleNumber
+  exact satNP_bind (parseNumberInternal_np parseFloat _ _) (fun _ _ => trivial)
+theorem parseAddCharList_np (pn : ParseNode) (d : BState F) : SatNP (fun _ => True) (parseAddCharList parseFloat d pn) := by
+  unfold parseAddCharList
+  exact satNP_bind (parseCharList_np parseFloat _) (fun _ _ => trivial)
+theorem parseAddByteList_np {pn : ParseNode} (h : ∀ s, parseByteList parseFloat pn.lexToken.text ≠ .panic s) (d : BState F) :
+    SatNP (fun _ => True) (parseAddByteList parseFloat d pn) := by
+  unfold parseAddByteList
+  exact satNP_bind (satNP_of_noPanic h) (fun _ _ => trivial)
+theorem parseAddSymbolLiteral_np {pn : ParseNode} (h : dropFirstByte pn.lexToken.text ≠ none) (d : BState F) :
+    SatNP (fun _ => True) (parseAddSymbolLiteral d pn) := by
+  unfold parseAddSymbolLiteral
+  split
+  · rename_i heq; exact absurd heq h
+  · exact trivial
+
+theorem addUnit_np (pn : ParseNode) (d : BState F) : SatNP (fun _ => True) (addUnit d pn) := trivial
+theorem addFalse_np (pn : ParseNode) (d : BState F) : SatNP (fun _ => True) (addFalse d pn) := trivial
+theorem addTrue_np (pn : ParseNode) (d : BState F) : SatNP (fun _ => True) (addTrue d pn) := trivial
+theorem parseAddSymbolText_np (pn : ParseNode) (d : BState F) : SatNP (fun _ => True) (parseAddSymbolText d pn) := trivial
+theorem noOperand_np (pn : ParseNode) (d : BState F) :
+    SatNP (fun _ => True) ((fun (data : BState F) (_ : ParseNode) => Outcome.ok (data, (none : Option Nat))) d pn) := trivial
+
+theorem handleParseNode_np (hn : NodesNP n ctx.nodes) {pn : ParseNode} (hs : NodeSafe parseFloat n pn) (crj ni : Nat) :
+    SatNP (NPost n) (handleParseNode parseFloat ctx crj ni pn) := by
+  unfold handleParseNode
+  split
+  · exact handleValuePrimitive_np hn hs.links (addUnit_np pn) ni
+  · exact handleValuePrimitive_np hn hs.links (addFalse_np pn) ni
+  · exact handleValuePrimitive_np hn hs.links (addTrue_np pn) ni
+  · exact handleValuePrimitive_np hn hs.links (parseAddNumber_np parseFloat pn) ni
+  · exact handleValuePrimitive_np hn hs.links (parseAddCharList_np parseFloat pn) ni
+  · exact handleValuePrimitive_np hn hs.links (parseAddByteList_np parseFloat (hs.byteList (by assumption))) ni
+  · exact handleValuePrimitive_np hn hs.links (parseAddSymbolLiteral_np (hs.symbol (by assumption))) ni
+  · exact handleValueLike_np hn hs.links (noOperand_np pn) _ ni
+  · exact handleValueLike_np hn hs.links (parseAddSymbolText_np pn) _ ni
+  · exact handleValueLike_np hn hs.links (parseAddSymbolText_np pn) _ ni
+  · exact handleValueLike_np hn hs.links (noOperand_np pn) _ ni
+  · exact handleUnaryPrefix_np hn hs.links _ ni
+  · exact handleUnaryPrefix_np hn hs.links _ ni
+  · exact handleUnaryPrefix_np hn hs.links _ ni
+  · exact handleUnaryPrefix_np hn hs.links _ ni
+  · exact handleUnaryPrefix_np hn hs.links _ ni
+  · exact handleUnaryPrefix_np hn hs.links _ ni
+  · exact handleUnaryPrefix_np hn hs.links _ ni
+  · exact handleUnarySuffix_np hn hs.links _ ni
+  · exact handleUnarySuffix_np hn hs.links _ ni
+  · exact handleUnarySuffix_np hn hs.links _ ni
+  · exact handleBinaryOperation_np hn hs.links _ ni
+  · exact handleBinaryOperation_np hn hs.links _ ni
+  · exact handleBinaryOperation_np hn hs.links _ ni
+  · exact handleBinaryOperation_np hn hs.links _ ni
+  · exact handleBinaryOperation_np hn hs.links _ ni
+  · exact handleBinaryOperation_np hn hs.links _ ni
+  · exact handleBinaryOperation_np hn hs.links _ ni
+  · exact handleBinaryOperation_np hn hs.links _ ni
+  · exact handleBinaryOperation_np hn hs.links _ ni
+  · exact handleBinaryOperation_np hn hs.links _ ni
+  · exact handleBinaryOperation_np hn hs.links _ ni
+  · exact handleBinaryOperation_np hn hs.links _ ni
+  · exact handleBinaryOperation_np hn hs.links _ ni
+  · exact handleBinaryOperation_np hn hs.links _ ni
+  · exact handleBinaryOperation_np hn hs.links _ ni
+  · exact handleBinaryOperation_np hn hs.links _ ni
+  · exact handleBinaryOperation_np hn hs.links _ ni
+  · exact handleBinaryOperation_np hn hs.links _ ni
+  · exact handleBinaryOperation_np hn hs.links _ ni
+  · exact handleBinaryOperation_np hn hs.links _ ni
+  · exact handleBinaryOperation_np hn hs.links _ ni
+  · exact handleBinaryOperation_np hn hs.links _ ni
+  · exact handleBinaryOperation_np hn hs.links _ ni
+  · exact handleBinaryOperation_np hn hs.links _ ni
+  · exact handleBinaryOperation_np hn hs.links _ ni
+  · exact handleBinaryOperation_np hn hs.links _ ni
+  · exact handleBinaryOperation_np hn hs.links _ ni
+  · exact handleBinaryOperation_np hn hs.links _ ni
+  · exact handleBinaryOperation_np hn hs.links _ ni
+  · exact handleBinaryOperationWithPush_np hn hs.links _ _ ni
+  · exact handleBinaryOperationWithPush_np hn hs.links _ _ ni
+  · exact handleList_np hn hs.links ni
+  · exact handleList_np hn hs.links ni
+  · exact handleLogicalBinary_np hn hs.links _ ni
+  · exact handleLogicalBinary_np hn hs.links _ ni
+  · exact handleGroup_np hn hs.links ni
+  · exact handleSideEffect_np hn hs.links ni
+  · exact handleNestedExpression_np hn hs.links crj ni
+  · exact handleJumpIf_np hn hs.links _ ni
+  · exact handleJumpIf_np hn hs.links _ ni
+  · exact handleElseJump_np hn hs.links ni
+  · exact handleReapply_np hn hs.links ni
+  · exact handleSubexpression_np hn hs.links ni
+  · exact handleSubexpression_np hn hs.links ni
+  · exact handleUnaryFixApply_np hn hs.links.1 ni
+  · exact handleUnaryFixApply_np hn hs.links.2 ni
+  · exact handleInfixApply_np hn hs.links ni
+  · exact satNP_buildErr
+
+theorem afterHandle_np {nodes : Nodes} (hn : NodesNP n nodes) (ni : Nat) : SatNP (NodesNP n) (afterHandle nodes ni) := by
+  unfold afterHandle
+  split
+  · rename_i node hnode
+    have hb : BnNP n node := hn.2 _ _ hnode
+    split
+    · split
+      · have h1 : NodesNP n (putNode nodes ni { node with contributesToList := false }) :=
+          nodesNP_putNode hn _ (bnNP_congr hb rfl)
+        refine satNP_bind (getNode_np h1 _) (fun parentNode hp => ?_)
+        exact nodesNP_putNode h1 _ (bnNP_congr hp rfl)
+      · exact hn
+    · exact hn
+  · exact hn
+
+/-- every node of the tree is safe -/
+def TreeSafe (parseTree : Array ParseNode) : Prop :=
+  ∀ (i : Nat) (pn : ParseNode), parseTree[i]? = some pn → NodeSafe parseFloat parseTree.size pn
+
+theorem innerLoop_np {parseTree : Array ParseNode} (ht : TreeSafe parseFloat parseTree) (crj : Nat) :
+    ∀ (stepFuel : Nat) (ctx : Ctx F), NodesNP parseTree.size ctx.nodes →
+      SatNP (fun r => NodesNP parseTree.size r.1.nodes) (innerLoop parseFloat parseTree crj stepFuel ctx) := by
+  intro stepFuel
+  induction stepFuel with
+  | zero => intro ctx _; exact satNP_fuelOut
+  | succ k ih =>
+    intro ctx h
+    unfold innerLoop
+    split
+    · exact h
+    · split
+      · exact satNP_buildErr
+      · rename_i pn hpn
+        have h' : NodesNP parseTree.size ({ ctx with stack := ctx.stack.pop } : Ctx F).nodes := h
+        refine satNP_bind (handleParseNode_np parseFloat h' (ht _ _ hpn) crj _) (fun ctx1 h1 => ?_)
+        refine satNP_bind (afterHandle_np h1 _) (fun nodes hnodes => ?_)
+        exact ih _ hnodes
+
+theorem rootJump_np (data : BState F) (nodes : Nodes) (rootIndex : Nat) : SatNP (fun _ => True) (rootJump data nodes rootIndex) := by
+  unfold rootJump
+  dsimp only
+  repeat' (first | exact trivial | exact satNP_buildErr | split)
+
+theorem rootLoop_np {parseTree : Array ParseNode} (ht : TreeSafe parseFloat parseTree) :
+    ∀ (rootFuel stepFuel : Nat) (ctx : Ctx F), NodesNP parseTree.size ctx.nodes →
+      SatNP (fun _ => True) (Garnish.Model.Build.rootLoop parseFloat parseTree rootFuel stepFuel ctx) := by
+  intro rootFuel
+  induction rootFuel with
+  | zero => intro _ ctx _; exact satNP_fuelOut
+  | succ k ih =>
+    intro stepFuel ctx h
+    unfold Garnish.Model.Build.rootLoop
+    split
+    · exact trivial
+    · dsimp only
+      refine satNP_bind (rootJump_np _ _ _) (fun r _ => ?_)
+      obtain ⟨data, crj⟩ := r
+      dsimp only
+      refine satNP_bind (innerLoop_np parseFloat ht crj stepFuel _ h) (fun r2 h2 => ?_)
+      obtain ⟨ctx2, fuel2⟩ := r2
+      dsimp only
+      exact ih _ _ h2
+
+end handlersNP
+
+theorem validateChild_np (nodes : Array ParseNode) (index : Nat) (visited : Array Bool) (stack : Array Nat) (child : Nat) :
+    SatNP (fun _ => True) (validateChild nodes index visited stack child) := by
+  unfold validateChild
+  repeat' (first | exact trivial | exact satNP_buildErr | split)
+
+theorem validateLoop_np (nodes : Array ParseNode) : ∀ (fuel : Nat) (visited : Array Bool) (stack : Array Nat),
+    SatNP (fun _ => True) (validateLoop nodes fuel visited stack) := by
+  intro fuel
+  induction fuel with
+  | zero => intro _ _; exact satNP_fuelOut
+  | succ k ih =>
+    intro visited stack
+    unfold validateLoop
+    split
+    · exact trivial
+    · split
+      · exact satNP_buildErr
+      · dsimp only
+        refine satNP_bind (Q := fun _ => True) ?_ (fun r1 _ => ?_)
+        · split
+          · exact trivial
+          · exact validateChild_np _ _ _ _ _
+        · refine satNP_bind (Q := fun _ => True) ?_ (fun r2 _ => ih _ _)
+          split
+          · exact trivial
+          · exact validateChild_np _ _ _ _ _
+
+theorem validateParseTree_np (root : Nat) (nodes : Array ParseNode) : SatNP (fun _ => True) (validateParseTree root nodes) := by
+  unfold validateParseTree
+  split
+  · exact satNP_buildErr
+  · split
+    · exact satNP_buildErr
+    · dsimp only
+      refine satNP_bind (validateLoop_np _ _ _ _) (fun _ _ => ?_)
+      split
+      · exact trivial
+      · exact satNP_buildErr
+
+/-- (a) for the traversal itself (`build` as it was before `validate_parse_tree` was added): no panic on a parse
+    result whose root and links are in range and whose symbol / byte-list texts avoid the two slicing panics of the
+    literal layer (any fuel, any start state).
+    Number and char-list literals need no hypothesis: `parseNumberInternal_np`, `parseCharList_np`. -/
+theorem buildCore_no_panic (parseFloat : List Char → Option F) (fuel parseRoot : Nat) (parseTree : Array ParseNode) (data : BState F)
+    (hroot : parseRoot < parseTree.size) (ht : TreeSafe parseFloat parseTree) :
+    SatNP (fun _ => True) (buildCore parseFloat fuel parseRoot parseTree data) := by
+  unfold buildCore
+  dsimp only
+  have h0 : NodesNP parseTree.size (Array.replicate parseTree.size (none : Option BuildNode)) := by
+    refine ⟨by simp, ?_⟩
+    intro i b h
+    simp [Array.getElem?_replicate] at h
+  refine satNP_bind (setNodeIdx_np h0 hroot (bnNP_new _ _ _) _) (fun nodes hnodes => ?_)
+  exact satNP_bind (rootLoop_np parseFloat ht fuel fuel _ hnodes) (fun _ _ => trivial)
+
+/-- (a) `build` never panics under the same precondition -/
+theorem build_no_panic (parseFloat : List Char → Option F) (fuel parseRoot : Nat) (parseTree : Array ParseNode) (data : BState F)
+    (hroot : parseRoot < parseTree.size) (ht : TreeSafe parseFloat parseTree) (s : String) :
+    build parseFloat fuel parseRoot parseTree data ≠ .panic s := by
+  apply satNP_noPanic (P := fun _ => True)
+  unfold build
+  split
+  · exact trivial
+  · exact satNP_bind (validateParseTree_np _ _) (fun _ _ => buildCore_no_panic parseFloat _ _ _ _ hroot ht)
 
 end Garnish.Lemmas.Build
